@@ -1215,15 +1215,17 @@ def t_human_readable(ctx, prog):
 
 def run(ctx):
     prog = load.program('serde-full')
+    half = prog.feature('half', 'minicbor_serde')
+    alloc = prog.feature('alloc', 'minicbor_serde') or prog.feature('std', 'minicbor_serde')
     t_ser(ctx, prog)
     t_human_readable(ctx, prog)
     t_de_raw(ctx, prog)
-    t_de(ctx, prog, half=True, alloc=True)
+    t_de(ctx, prog, half=half, alloc=alloc)
     t_access(ctx, prog)
     p_roundtrip(ctx, prog, sizes=(0, 1, 2) if ctx.tier == 'quick' else (0, 1, 2, 3, 5))
-    if ctx.tier == 'thorough':
-        for cfgname, half, alloc in (('serde-none', False, False), ('serde-half', True, False), ('serde-alloc', False, True)):
+    if ctx.tier == 'thorough' and not load.ALIAS:
+        for cfgname, h2, a2 in (('serde-none', False, False), ('serde-half', True, False), ('serde-alloc', False, True)):
             p2 = load.program(cfgname)
-            t_de(ctx, p2, half=half, alloc=alloc, label='[%s]' % cfgname)
+            t_de(ctx, p2, half=h2, alloc=a2, label='[%s]' % cfgname)
     return ('Bridge methods interpreted with opaque Serialize/Visitor/Seed parameters; serde-derive\'s generated code (flatten, internally tagged, untagged) lies outside the repository and is not decided: '
             'the bridge-side obligations they rely on (deserialize_any dispatch, map/seq access, identifier as text) are the rows above.')
